@@ -106,6 +106,8 @@ def run(repo, tier):
         rep.fail(Finding('R20.1.spelling', 'transform_compressible.' + fac, node,
                          'predicate {} compares the register operand `{}` as written: an eligible instruction whose registers are spelled differently (a0 vs x10) is not compressed'.format(fac, field),
                          line=node.lineno), instance=fac + ' ' + str(field))
+    from ..comprel import check_operand_value
+    check_operand_value(rep, rel, 'R20.1.operand-value')
     check_rounds(rep, facts, 'R20.3.rounds')
     try:
         check_monotone(rep, facts, 'R20.2.monotone')
